@@ -33,6 +33,7 @@ ASSUMPTIONS = [
     "under an injected stream fault a call may raise or add a prefix of the document; for EOF faults the no-garbage clause is judged for line-based syntaxes only (a truncated Turtle/XML/JSON document can be a different legal prefix)",
 ]
 PROBES = [
+    "process-restarted-between-calls",
     "option-bnode_context-fresh-dict",
     "option-preserve_bnode_ids-false",
     "same-label-consecutive-docs",
@@ -83,6 +84,39 @@ def warm():
     import rdflib.plugins.sparql.update  # noqa
 
     rdflib.Graph().update("INSERT DATA { <urn:a> <urn:b> <urn:c> }")
+    _snapshot_process_state()
+
+
+# the parsers' process-wide state as it is in a freshly started process: module globals and class attributes of plain type
+_PRISTINE = {}
+
+
+def _snapshot_process_state():
+    import sys
+    import types
+
+    for name, mod in list(sys.modules.items()):
+        if not name.startswith("rdflib.plugins.parsers") or not isinstance(mod, types.ModuleType):
+            continue
+        for k, v in list(vars(mod).items()):
+            if k.startswith("__"):
+                continue
+            if isinstance(v, (int, str, bool, type(None))):
+                _PRISTINE[(name, None, k)] = v
+            elif isinstance(v, type) and v.__module__ == name:
+                for ck, cv in list(vars(v).items()):
+                    if not ck.startswith("__") and isinstance(cv, (int, bool)) and not isinstance(cv, property):
+                        _PRISTINE[(name, k, ck)] = cv
+
+
+def _restart_process():
+    """the program is stopped and started again: the store's content is durable and survives, whatever the parser modules kept
+    in process-wide variables (id counters, the run's namespace) starts from scratch"""
+    import sys
+
+    for (name, cls, k), v in _PRISTINE.items():
+        mod = sys.modules[name]
+        setattr(mod if cls is None else getattr(mod, cls), k, v)
 
 
 def _gen_doc(g, fmt, labels, quadfmt, gnames):
@@ -148,6 +182,8 @@ def generate(seed, tier):
         call = {"uid": i + 1, "k": "parse", "format": fmt, "quads": quads, "mode": mode, "chunks": chunk_schedule(g), "repeat": repeat, "styled": g.random() < 0.5}
         if g.random() < 0.3:
             call["reseed"] = 12345
+        if g.random() < 0.12:
+            call["restart"] = True  # fault: the process is restarted before this call (only the store's content survives)
         if mode == "load" and sink in ("dataset-F", "dataset-T", "cg") and g.random() < 0.4:
             call["into"] = True  # LOAD <url> INTO GRAPH <g1>
         if g.random() < 0.15:
@@ -340,6 +376,10 @@ def _execute(trace, ctx):
                 doc = writers.WRITERS[fmt](quads, style)
         except ValueError:
             continue
+        if call.get("restart"):
+            _restart_process()
+            ctx.fault("process-restart")
+            ctx.probe("process-restarted-between-calls")
         if call.get("reseed") is not None:
             # the host program re-seeds Python's global generator (a legal thing for it to do): ids minted for separate parse
             # calls must stay distinct all the same
